@@ -597,6 +597,30 @@ fn execute_inner(
                         });
                     }
                 }
+                // H2: for short gaps a third, brute-force formulation: scan every minute of
+                // (base, result) with the per-minute predicate; none may match, the result must
+                if want - base <= 3000 {
+                    for m in base + 1..want {
+                        if sets.matches_minute(m) {
+                            return Err(Fail {
+                                invariant: "H2-skipped-minute",
+                                step,
+                                observed: format!("result {} but minute {} matches the schedule and lies after max(now, last)", cal::fmt_unix(ts), cal::fmt_unix(m * 60)),
+                                expected: "no matching minute is skipped".into(),
+                                panic: None,
+                            });
+                        }
+                    }
+                    if !sets.matches_minute(want) {
+                        return Err(Fail {
+                            invariant: "H2-not-matching",
+                            step,
+                            observed: format!("result {} does not match the schedule", cal::fmt_unix(ts)),
+                            expected: "a matching minute".into(),
+                            panic: None,
+                        });
+                    }
+                }
                 // reach
                 if let Some(s) = stats.as_deref_mut() {
                     let rel = match d.last {
